@@ -113,6 +113,10 @@ def _cls(rec, relation, when):
     c = {"relation": relation, "when": when.split("_")[0], "what": rec["what"], "kind": rec["kind"]}
     if rec.get("extra") or rec.get("missing"):
         c["direction"] = "not_removed" if rec.get("extra") and not rec.get("missing") else "survivor_lost" if rec.get("missing") and not rec.get("extra") else "both"
+        leaked = sorted(n for n in rec.get("extra") or [] if isinstance(n, str) and not S.name_allowed(n))
+        if leaked:  # reserved metadata names on the loaded object: not a skip-list decision at all
+            c["direction"] = "extra"
+            c["reserved_names_leaked"] = leaked
     return c
 
 
